@@ -434,6 +434,22 @@ fn run_parallel(exe: &Path, dir: &Path, tag: &str, mode: &str, inputs: &[(u64, S
         all.bytes.extend(r.bytes);
         all.spawned += r.spawned;
     }
+    // an input whose child failed outside the protocol (could not start, died between inputs) is run
+    // again on its own before anything is concluded about it
+    if mode != "measure" {
+        for attempt in 0..2 {
+            let lost: Vec<(u64, String)> =
+                inputs.iter().filter(|(id, _)| matches!(all.obs.get(id), None | Some(Obs::Lost))).cloned().collect();
+            if lost.is_empty() {
+                break;
+            }
+            for one in lost.chunks(1) {
+                let r = run_in_children(exe, dir, &format!("{}_lost{}", tag, attempt), mode, one);
+                all.spawned += r.spawned;
+                all.obs.extend(r.obs);
+            }
+        }
+    }
     all
 }
 
@@ -782,6 +798,52 @@ fn main() {
         }
     }
 
+    // ---------------------------------------------------------------- is there a nesting limit in the implementation?
+    // (none today: a 100000-deep input kills the child.  Once a limit such as fixes/C23-depth-limit.patch is
+    // applied the same input is a ParseError; the deepest accepted parenthesis nesting p then gives the limit
+    // l = p + 2 with which the model is run, so that the comparison describes the code as it is.)
+    let lim: Option<usize> = {
+        let probe = |d: usize| -> Option<bool> {
+            let inp = vec![(8_000_000u64, gen::ramp_text("paren", d))];
+            match run_in_children(&exe, &dir, "lim", "thread", &inp).obs.get(&8_000_000) {
+                Some(Obs::Ok) => Some(true),
+                Some(Obs::Err) => Some(false),
+                _ => None,
+            }
+        };
+        match probe(100_000) {
+            Some(false) if probe(1) == Some(true) => {
+                let (mut lo, mut hi) = (1usize, 100_000usize);
+                let mut clean = true;
+                while hi - lo > 1 {
+                    let mid = (lo + hi) / 2;
+                    match probe(mid) {
+                        Some(true) => lo = mid,
+                        Some(false) => hi = mid,
+                        None => {
+                            clean = false;
+                            hi = mid;
+                        }
+                    }
+                }
+                if clean {
+                    Some(lo + 2)
+                } else {
+                    None
+                }
+            }
+            _ => None,
+        }
+    };
+    let lim_coq = match lim {
+        Some(l) => format!("(Some {}%nat)", l),
+        None => "None".to_string(),
+    };
+    sum.notes.push(match lim {
+        Some(l) => format!("the implementation rejects deep nesting with a ParseError: detected nesting limit {} (model run with lim = Some {})", l, l),
+        None => "the implementation has no nesting limit (a 100000-deep input kills the process); model run with lim = None".to_string(),
+    });
+
     // ---------------------------------------------------------------- (iii) skeleton: accept/reject + depth
     let soups = gen::skeleton_soups(args.seed, args.thorough);
     let mut sk_inputs: Vec<(u64, String)> = Vec::new();
@@ -822,15 +884,27 @@ fn main() {
     // measured stack high-water marks for pairs of depths
     let mut depth_cases: Vec<(u64, String, usize, String, usize)> = Vec::new();
     if only.is_none() {
-        let pairs = gen::measure_pairs();
+        let pairs = gen::measure_pairs(lim);
         let mut m_inputs: Vec<(u64, String)> = Vec::new();
         for (i, (_, d1, d2)) in pairs.iter().enumerate() {
             let c = pairs[i].0;
             m_inputs.push((5_000_000 + 2 * i as u64, gen::ramp_text(c, *d1)));
             m_inputs.push((5_000_001 + 2 * i as u64, gen::ramp_text(c, *d2)));
         }
-        let mr = run_parallel(&exe, &dir, "m", "measure", &m_inputs, workers);
+        let mut mr = run_parallel(&exe, &dir, "m", "measure", &m_inputs, workers);
         child_spawns += mr.spawned;
+        // a measurement can fail for reasons that have nothing to do with the parser (memory pressure on a
+        // loaded machine): retry the missing ones, sequentially
+        for attempt in 0..3 {
+            let missing: Vec<(u64, String)> = m_inputs.iter().filter(|(id, _)| !mr.bytes.contains_key(id)).cloned().collect();
+            if missing.is_empty() {
+                break;
+            }
+            let again = run_in_children(&exe, &dir, &format!("m_retry{}", attempt), "measure", &missing);
+            child_spawns += again.spawned;
+            mr.bytes.extend(again.bytes);
+        }
+        let mut measured = 0;
         for (i, (c, d1, d2)) in pairs.iter().enumerate() {
             let (ia, ib) = (5_000_000 + 2 * i as u64, 5_000_001 + 2 * i as u64);
             sum.evaluations += 2;
@@ -840,14 +914,22 @@ fn main() {
                     sum.notes.push(format!("stack high-water {}: depth {} -> {} bytes, depth {} -> {} bytes ({:.0} bytes per nesting level)", c, d1, a, d2, b, per));
                     sum.count_n(&format!("stack_bytes_per_level_{}", c), per.max(0.0) as u64);
                     // oracle on the implementation: stack use grows with the nesting depth (no cut-off)
-                    if b <= a {
+                    if b <= a && lim.is_none() {
                         sum.finding("stack-not-growing", ia, format!("{}: measured stack did not grow between depth {} and {}", c, d1, d2), json!({"construct": c}));
                     }
                     depth_cases.push((ia, m_inputs[2 * i].1.clone(), *a, m_inputs[2 * i + 1].1.clone(), *b));
                     log.log(ia, json!({"kind": "measure", "construct": c, "depths": [d1, d2], "bytes": [a, b]}));
                 }
-                _ => sum.finding("measure-failed", ia, format!("could not measure the stack for {}", c), json!({"construct": c})),
+                _ => {
+                    sum.count("measure_skipped");
+                    sum.notes.push(format!("stack measurement for {} failed 4 times (skipped)", c));
+                    continue;
+                }
             }
+            measured += 1;
+        }
+        if measured == 0 {
+            sum.finding("measure-failed", 5_000_000, "no stack measurement succeeded".into(), json!({"constructs": pairs.len()}));
         }
     }
     if only.is_none() {
@@ -856,7 +938,7 @@ fn main() {
             s.push_str(&uni_table(&mut chunk.iter().map(|c| &c.1)));
             s.push_str("Definition cases : list skel_case := [\n");
             s.push_str(&chunk.iter().map(|(id, inp, claim, acc)| format!("({}, {}, {}, {})", id, codes(inp), bool_lit(*claim), bool_lit(*acc))).collect::<Vec<_>>().join(";\n"));
-            s.push_str("].\nEval vm_compute in (skel_mismatches tbl cases).\n");
+            s.push_str(&format!("].\nEval vm_compute in (skel_mismatches {} tbl cases).\n", lim_coq));
             write_shard(&args, shard_no, &s);
             shard_no += 1;
             sum.model_cases += chunk.len() as u64;
@@ -869,7 +951,7 @@ fn main() {
         s.push_str(&abort_cases.iter().map(|(id, a, ab)| format!("({}, {}, {})", id, codes(a), bool_lit(*ab))).collect::<Vec<_>>().join(";\n"));
         // bytes per model frame: between 16 B and 64 KiB; aborting inputs are >= 150 frames deep, inputs
         // of <= 60 frames never abort
-        s.push_str("].\nEval vm_compute in (depth_mismatches tbl 16 65536 dcases ++ abort_mismatches tbl 60 150 acases).\n");
+        s.push_str(&format!("].\nEval vm_compute in (depth_mismatches {} tbl 16 65536 dcases ++ abort_mismatches {} tbl 60 150 acases).\n", lim_coq, lim_coq));
         write_shard(&args, shard_no, &s);
         sum.model_cases += (depth_cases.len() + abort_cases.len()) as u64;
     }
